@@ -257,6 +257,19 @@ func runC13(o *opts) (*summary, error) {
 				b, _ := x.MarshalUT0311L0x()
 				return projDateTime(x), b
 			})
+			// a date-time the caller holds in ANOTHER Location than the process zone (fixed offsets: every civil time exists
+			// there): it is sent as its own civil fields - the process zone has no say
+			if y >= 2 && y <= 9998 {
+				emit("DateTimeEncodeForeign", "datetime", class, cdt, true, func() (M, []byte) {
+					off := []int{19800, -12600, 45900, -3600, 3600, 0}[rng.Intn(6)]
+					v := types.DateTime(time.Date(y, time.Month(m), dd, h, mi, s, 0, time.FixedZone("fixed", off)))
+					b, err := v.MarshalUT0311L0x()
+					if err != nil {
+						return M{"t": "err"}, nil
+					}
+					return projDateTime(v), b
+				})
+			}
 			if y >= 2000 && y <= 2068 {
 				emit("StatusRecombine", "datetime", class, cdt, tex, func() (M, []byte) {
 					u, d := stubClient(clientCfg{})
